@@ -876,12 +876,17 @@ def gen_net(r, n, tier):
 
 def gen_tls(r, n, tier):
     """the C09 grid; quick = a reduced grid, thorough = the full grid"""
-    srv_ca = ["cli_operator", "cli_viewer", "cli_norole", "cli_wrongca", "cli_expired", "cli_future", "none"]
+    srv_ca = ["cli_operator", "cli_viewer", "cli_norole", "cli_wrongca", "cli_expired", "cli_future", "none",
+              # a second certificate after the end entity: the role is that of the end entity
+              "cli_operator+cli_viewer", "cli_viewer+cli_operator", "cli_norole+cli_operator", "cli_operator+ss_a"]
     srv_ss = [("ss_b", "ss_b"), ("ss_a", "ss_a"), ("ss_impostor", "ss_b"), ("ss_expired", "ss_expired"),
-              ("ss_future", "ss_future"), ("ss_norole", "ss_norole"), ("none", "ss_b")]
+              ("ss_future", "ss_future"), ("ss_norole", "ss_norole"), ("none", "ss_b"), ("ss_a+ss_b", "ss_a")]
     cli_ca = [("srv_ok", "test.com"), ("srv_wrongname", "test.com"), ("srv_cnonly", "test.com"),
               ("srv_wrongca", "test.com"), ("srv_expired", "test.com"), ("srv_future", "test.com"),
-              ("srv_wrongname", "-"), ("srv_ok", "-"), ("srv_wrongca", "-")]
+              ("srv_wrongname", "-"), ("srv_ok", "-"), ("srv_wrongca", "-"),
+              # expected names that are IP literals
+              ("srv_ok", "127.0.0.1"), ("srv_ip", "127.0.0.1"), ("srv_ip", "10.1.2.3"), ("srv_ip", "test.com"),
+              ("srv_wrongname", "::1")]
     cli_ss = [("ss_b", "ss_b"), ("ss_impostor", "ss_b"), ("ss_expired", "ss_expired"), ("ss_future", "ss_future")]
     cases = []
     for mn in ("12", "13"):
@@ -909,7 +914,8 @@ def gen_tls(r, n, tier):
     for c in cases:
         tok = c.split(" ")
         if tok[2] == "12" and ((tok[1] == "srv" and tok[5] == "both") or (tok[1] == "cli" and tok[4] == "both")):
-            if r.chance(1, 2):
+            special = "+" in c or (tok[1] == "cli" and (tok[6][0].isdigit() or ":" in tok[6]))
+            if r.chance(1, 2) or special:
                 yield c
 
 
